@@ -29,3 +29,9 @@ func VerifDecoderNames() []string {
 	sort.Strings(names)
 	return names
 }
+
+// VerifDecoder returns the registered value decoder of that name (nil when
+// there is none), so that the harness can probe it directly.
+func VerifDecoder(name string) func(string) (any, error) {
+	return valueDecoders[name]
+}
